@@ -7,19 +7,20 @@ Build-time instrumentation of /repo WITHOUT touching it (go build -overlay):
            as they are in the working tree NOW) to the shim."""
 import json, os, re, sys
 scratch, verif = sys.argv[1], sys.argv[2]
+REPO = os.environ.get("VERIF_REPO", "/repo")
 shim = len(sys.argv) > 3 and sys.argv[3] == "shim"
 rep = {
-    "/repo/eth2/pool/zz_verif_export.go": verif + "/sim/overlay/pool_export.go.txt",
-    "/repo/eth2/util/verifsync/verifsync.go": verif + "/sim/overlay/verifsync.go.txt",
+    REPO + "/eth2/pool/zz_verif_export.go": verif + "/sim/overlay/pool_export.go.txt",
+    REPO + "/eth2/util/verifsync/verifsync.go": verif + "/sim/overlay/verifsync.go.txt",
 }
 if shim:
     files = []
-    for d in ("/repo/eth2/forkchoice", "/repo/eth2/forkchoice/proto", "/repo/eth2/pool"):
+    for d in (REPO + "/eth2/forkchoice", REPO + "/eth2/forkchoice/proto", REPO + "/eth2/pool"):
         for f in sorted(os.listdir(d)):
             if f.endswith(".go") and not f.endswith("_test.go"):
                 files.append(os.path.join(d, f))
-    files.append("/repo/eth2/beacon/common/validator_pubkeys.go")
-    files.append("/repo/eth2/beacon/common/bls.go")
+    files.append(REPO + "/eth2/beacon/common/validator_pubkeys.go")
+    files.append(REPO + "/eth2/beacon/common/bls.go")
     n = 0
     for f in files:
         src = open(f).read()
